@@ -20,11 +20,13 @@ from . import _simcases as S
 
 RULE = (
     "configuration = one simulation input (no screening + adaptive, screening, time-dependent drive + callable currents, "
-    "epsilon callable, fixed step with holes); each configuration is executed in fresh processes under 8 (quick) / ~40 (thorough) "
+    "epsilon callable, fixed step with holes, callable currents with a pulse covering 0.67 % of the run, live monitor requested with a wall-clock refresh "
+    "interval far shorter than the run [the plotting process itself is not started]); each configuration is executed in fresh processes under 8 (quick) / ~40 (thorough) "
     "environments: NUMBA_NUM_THREADS in 1..16, OMP/OPENBLAS threads 1/4, PYTHONHASHSEED 0/1/random, output file / temp dir / "
     "output file name already occupied by an earlier different run / other cwd, repeated. In-process seed_reuse case = the same seeded "
     "simulation run twice from one in-memory seed Solution and once from the seed re-loaded from its file (all digests equal, seed untouched). In-process history case = simulation X on a Device that was solved before with other options "
-    "(and optionally moved in place) vs X on a freshly built Device moved the same way. case = (configuration, environment); non-trivial = run completed with >= 10 updates and digests produced; "
+    "(and optionally moved in place) vs X on a freshly built Device moved the same way. In-process param_reuse case = a thermalised run driven by ONE caller-held time-dependent Parameter object: first use, after '2 * field' was written, "
+    "after 'field + field' was evaluated, and with a freshly made equal object. case = (configuration, environment); non-trivial = run completed with >= 10 updates and digests produced; "
     "distinct = distinct (configuration, environment); the verdict compares all digests of a configuration"
 )
 REQUIRED_COUNTERS = ["process_runs", "digest_comparisons", "kernel_buffer_checks", "rng_state_checks", "seed_reuse_comparisons", "history_comparisons"]
@@ -38,17 +40,25 @@ def _configs(tier, seed):
     kinds = ["screening", "plain_adaptive", "four_terminals_callable", "screening_from_zero", "timedep_callable", "epsilon_callable", "fixed_holes"]
     if tier == "quick":
         kinds = kinds[:4]
+    # blip_callable: callable currents that are constant except for a pulse covering 0.67 % of the run (anything the library
+    # learns about the callable by SAMPLING it sees the pulse in about every second process);
+    # monitor_on: the live monitor requested with a refresh interval (wall-clock seconds) much shorter than the run
+    kinds = kinds + ["blip_callable", "monitor_on"]
     for name in kinds:
         scr = name in ("screening", "screening_from_zero")
-        nt = 2 if name in ("timedep_callable", "plain_adaptive") else (4 if name == "four_terminals_callable" else 0)
+        nt = 2 if name in ("timedep_callable", "plain_adaptive", "blip_callable", "monitor_on") else (4 if name == "four_terminals_callable" else 0)
         dev = zoo.gen_device(rng, n_terminals=nt, n_holes=1 if name == "fixed_holes" else 0, probes=2 if nt else 0, size="small" if not scr else "medium", smooth=int(rng.choice([0, 5])))
         if scr:
             dev["layer"]["lam"], dev["layer"]["d"] = 2.0, 0.1
         o = S.base_options(rng, adaptive=name != "fixed_holes", steps=25 if scr else 80, screening=scr)
         if scr:
             o.update(max_iterations_per_step=3000, dt_max=0.02, solve_time=0.25)
+        if name == "blip_callable":
+            o = S.base_options(rng, adaptive=False, steps=300)
+        if name == "monitor_on":
+            o.update(monitor=True, monitor_update_interval=0.004, save_every=10**6)
         drive = {"A": S.field_spec(rng, dev, o, "ramp" if name in ("timedep_callable", "screening_from_zero") else "uniform", b=0.3),
-                 "currents": S.current_spec(rng, dev, o, {"timedep_callable": "callable", "four_terminals_callable": "callable", "plain_adaptive": "const"}.get(name, "none"), strength=0.2),
+                 "currents": S.current_spec(rng, dev, o, {"timedep_callable": "callable", "four_terminals_callable": "callable", "plain_adaptive": "const", "blip_callable": "blip", "monitor_on": "const"}.get(name, "none"), strength=0.2),
                  "epsilon": {"kind": "spatial_novec" if name == "epsilon_callable" else ("time" if name == "plain_adaptive" else "one")}}  # (plain_adaptive: epsilon(r, t))
         cfgs.append({"name": name, "device": dev, "options": o, "drive": drive})
     return cfgs
@@ -84,6 +94,15 @@ def gen_cases(tier, seed):
             drive["A"] = S.field_spec(rngh, dev, o, "loop", b=0.25)  # a source that depends on z: the film's height matters
         cases.append({"layer": "history", "config": f"history{k}", "between": "dz_copy" if k % 4 == 3 else None, "device": dev, "options": dict(o, output="file"), "drive": drive, "reuse_options": bool(o["adaptive"]),
                       "translate": [[0.37, 3.1, 41.7][(k // 2) % 3] * np.cos(ang), [0.37, 3.1, 41.7][(k // 2) % 3] * np.sin(ang)] if k % 2 == 0 else None, "cost": 20, "timeout": 900})
+    for k in range(2 if tier == "quick" else 6):
+        # a time-dependent vector potential given as ONE plain Parameter object that the caller keeps: run, mention the object in an
+        # expression that is never used (2 * field), run again with it; a thermalised run evaluates the same times twice
+        dev = zoo.gen_device(rngh, n_terminals=[0, 2][k % 2], n_holes=0, probes=0, size="small", smooth=0)
+        o = S.base_options(rngh, adaptive=False, steps=40)
+        o["auto_dt"] = dict(o["auto_dt"], therm_steps=[7, 12, 20][k % 3])
+        drive = {"A": {"kind": "osc_plain", "B": S.field_spec(rngh, dev, o, "uniform", b=0.3)["B"], "w": 2 * np.pi / (0.7 * o["solve_time"])},
+                 "currents": S.current_spec(rngh, dev, o, "const" if k % 2 else "none", strength=0.15)}
+        cases.append({"layer": "param_reuse", "config": f"param_reuse{k}", "device": dev, "options": dict(o, output="file"), "drive": drive, "cost": 20, "timeout": 900})
     return cases
 
 
@@ -144,6 +163,8 @@ def run_case(spec):
         return _run_seed_reuse(spec)
     if spec.get("layer") == "history":
         return _run_history(spec)
+    if spec.get("layer") == "param_reuse":
+        return _run_param_reuse(spec)
     import numba
 
     numba_threads = int(numba.get_num_threads())
@@ -321,6 +342,48 @@ def _run_history(spec):
             break
     return {"violations": V, "counters": C, "classes": ["history", "translated=" + str(bool(spec.get("translate"))), "terminal_psi=" + str(spec["options"].get("terminal_psi"))],
             "nontrivial": min(na, nb) >= 10, "sample": {"config": spec["config"], "updates": [na, nb], "digests_equal": not V}}
+
+
+def _run_param_reuse(spec):
+    """The caller's Parameter object is an input: a run with it, the object mentioned in an arithmetic expression, the same run
+    again with it, and the run with a freshly made equal object all give the same digests."""
+    import shutil
+
+    dev, why = zoo.try_build_device(spec["device"])
+    if dev is None:
+        return {"violations": [], "counters": {"refused_mesh": 1}, "classes": ["refused"], "nontrivial": False}
+    opts = sim.build_options(sim.resolve_auto_dt(spec, dev)["options"])
+    sp = sim.resolve_auto_dt(spec, dev)
+    field, _, _ = sim.build_drive(sp["drive"], dev, opts)
+    runs = []
+    V, C = [], {"process_runs": 0, "history_comparisons": 0}
+    for label in ("first_use", "after_2_times_field_was_written", "after_field_plus_field_and_a_call", "fresh_object"):
+        if label == "after_2_times_field_was_written":
+            _unused = 2.0 * field  # noqa: F841
+        if label == "after_field_plus_field_and_a_call":
+            _unused = field + field
+            _unused(np.array([0.0, 1.0]), np.array([0.5, 0.25]), np.array([0.0, 0.0]), t=0.0)
+        tm = simmon.TraceMonitor()
+        rr = sim.run_sim(spec, [tm], device=dev, keep_dir=True, avp_obj=None if label == "fresh_object" else field)
+        if rr.refused:
+            return {"violations": [], "counters": {"refused_mesh": 1}, "classes": ["refused"], "nontrivial": False}
+        if rr.exception is not None and not runs:
+            shutil.rmtree(rr.outdir, ignore_errors=True)
+            return {"status": "harness_error", "error": "first run failed: " + repr(rr.exception)[:200]}
+        dg, ups = _digests(rr, tm)
+        dg.pop("mesh", None)
+        runs.append((label, dg, len(ups)))
+        C["process_runs"] += 1
+        shutil.rmtree(rr.outdir, ignore_errors=True)
+    for label, dg, n in runs[1:]:
+        C["history_comparisons"] += 1
+        for k in sorted(set(dg) | set(runs[0][1])):
+            if dg.get(k) != runs[0][1].get(k):
+                V.append({"kind": "result_depends_on_what_the_parameter_object_was_used_for_before", "mechanism": "nondeterministic_" + k,
+                          "detail": {"what": k, "run": label, "updates": [runs[0][2], n]}})
+                break
+    return {"violations": V, "counters": C, "classes": ["param_reuse", "terminals=" + str(len(spec["device"].get("terminals", [])))],
+            "nontrivial": min(r[2] for r in runs) >= 10, "sample": {"config": spec["config"], "runs": [(l, n, d.get("update_states", "")[:16]) for l, d, n in runs]}}
 
 
 def finalize(results, tier):
